@@ -36,21 +36,12 @@ def run(rep):
     rep.trusted = ['syn parser and the abstract semantics of Engine A', 'wgpu addresses colour targets by @location index']
     crate = ogp.crate
     # ---- ENTRY_ constants -----------------------------------------------------------------------------------------------------------
-    defs = []
-    for q, v in ogp.summaries.items():
-        for t in E.find_templates(v, lambda t: t[3] == q and E.tmpl_text(t).startswith('pub const #') and ': & str = #' in E.tmpl_text(t)):
-            defs.append((q, t))
+    defs = E.repetition_anchor(ogp, lambda t: E.tmpl_text(t).startswith('pub const #') and ': & str = #' in E.tmpl_text(t))
     rep.floor('entry name constant template', len(defs), 1)
     def_expr = None
-    for q, t in defs[:1]:
+    for q, t, s in defs[:1]:
         f = crate.fns[q]
         where = f"{crate.relfile(f['file'])} fn {f['name']} (template at {t[1]})"
-        ss = []
-        E.walk(ogp.summaries[q], lambda x: ss.append(x) if x[0] == 'star' and E.find_templates(x[3], lambda y: y is t) else None)
-        if len(ss) != 1:
-            rep.bad('C14.entry-constants', 'constants-repetition', where, 'cannot find the repetition producing ENTRY_ constants', undecided=True)
-            continue
-        s = ss[0]
         ent = ('elem', s[2], s[1])
         rep.check(s[1][0] == 'f' and s[1][2] == 'entry_points' and not s[4] and not s[5], 'C14.entry-constants', 'all-entries', where,
                   f'ENTRY_ constants are generated from {E.show(s[1], maxdepth=4)} with {len(s[4])} filter(s): some entry point gets no constant with its exact name', ok_detail='one constant per entry point')
@@ -65,14 +56,13 @@ def run(rep):
     n_sites = 0
     if def_expr:
         idf, ent = def_expr
-        for q2, v in ogp.summaries.items():
-            for t in E.find_templates(v, lambda t: t[3] == q2 and 'entry_point : #' in E.tmpl_text(t)):
+        for q2, t, s2 in E.repetition_anchor(ogp, lambda t: 'entry_point : #' in E.tmpl_text(t)):
+            if True:
                 f2 = crate.fns[q2]
                 w2 = f"{crate.relfile(f2['file'])} fn {f2['name']} (template at {t[1]})"
                 use = hole_after_seq(t, 'entry_point :')
-                ss = []
-                E.walk(ogp.summaries[q2], lambda x: ss.append(x) if x[0] == 'star' and E.find_templates(x[3], lambda y: y is t) else None)
-                if not ss or use is None:
+                ss = [s2]
+                if use is None:
                     continue
                 n_sites += 1
                 e2 = ('elem', ss[0][2], ss[0][1])
@@ -140,20 +130,11 @@ def run(rep):
                       f'the workgroup-size constant is not [x, y, z] = components 0,1,2 of this entry\'s workgroup_size ({[E.show(c, maxdepth=5) for c in comps]})',
                       ok_detail='[workgroup_size[0], [1], [2]]')
     # ---- fragment helper ----------------------------------------------------------------------------------------------------------------
-    fh = []
-    for q, v in ogp.summaries.items():
-        for t in E.find_templates(v, lambda t: t[3] == q and '-> FragmentEntry < #' in E.tmpl_text(t)):
-            fh.append((q, t))
+    fh = E.repetition_anchor(ogp, lambda t: '-> FragmentEntry < #' in E.tmpl_text(t))
     rep.floor('fragment entry helper template', len(fh), 1)
-    for q, t in fh[:1]:
+    for q, t, s in fh[:1]:
         f = crate.fns[q]
         where = f"{crate.relfile(f['file'])} fn {f['name']} (template at {t[1]})"
-        ss = []
-        E.walk(ogp.summaries[q], lambda x: ss.append(x) if x[0] == 'star' and E.find_templates(x[3], lambda y: y is t) else None)
-        if len(ss) != 1:
-            rep.bad('C14.fragment', 'fragment-repetition', where, 'cannot find the repetition producing fragment helpers', undecided=True)
-            continue
-        s = ss[0]
         ent = ('elem', s[2], s[1])
         rep.check(s[1][0] == 'f' and s[1][2] == 'entry_points' and stage_only(s[4], ent, 'Fragment') and not s[5], 'C14.fragment', 'fragment-entries', where,
                   f'fragment helpers are generated for entries filtered by {[E.show(c, maxdepth=5) for c in s[4]]}', ok_detail='one helper per fragment entry')
@@ -170,13 +151,7 @@ def run(rep):
         else:
             rep.bad('C14.fragment-target-count', 'target-count', where, f'target count is {E.show(tc1, maxdepth=4) if tc1 else None}', undecided=True)
     # ---- vertex helper existence + state forwarding -------------------------------------------------------------------------------------------
-    vh = []
-    for q, v in ogp.summaries.items():
-        for t in E.find_templates(v, lambda t: t[3] == q and '-> VertexEntry < #' in E.tmpl_text(t)):
-            ss = []
-            E.walk(ogp.summaries[q], lambda x: ss.append(x) if x[0] == 'star' and E.find_templates(x[3], lambda y: y is t) else None)
-            if ss:
-                vh.append((q, t, ss[0]))
+    vh = E.repetition_anchor(ogp, lambda t: '-> VertexEntry < #' in E.tmpl_text(t))
     rep.floor('vertex entry helper template', len(vh), 1)
     for q, t, s in vh[:1]:
         f = crate.fns[q]
